@@ -6,7 +6,7 @@ _TEXT_WR = ("writer part: the control of carquet's writer pipeline (page builder
             "PAR1 ++ data ++ footer ++ len ++ PAR1, and the row groups / column chunks of the footer describe consecutive, gap-free, "
             "non-overlapping byte ranges from offset 4 to the start of the footer with sizes that add up (C05_chunks_tile); the data region is, chunk by chunk, a "
             "concatenation of non-empty pages header(|body|, |stored|, crc32(stored), rows, stats) ++ stored with stored = compress(body), and each chunk's "
-            "num_values / total_compressed_size / total_uncompressed_size are the sums over its pages (C05_pages_chain); when every call returned OK the page contents, concatenated chunk by chunk, are exactly the table "
+            "num_values / total_compressed_size (headers + stored bodies) / total_uncompressed_size (headers + uncompressed bodies, after fix F23) are the sums over its pages, and each row group's total_byte_size is the sum of its chunks' total_uncompressed_size (C05_pages_chain); when every call returned OK the page contents, concatenated chunk by chunk, are exactly the table "
             "the history denotes (tableOf, defined from the batches alone) and every page body is rep levels ++ def levels ++ PLAIN values of its content (C05_written_table). Read-back equality (C01), three-mode agreement (C03) and "
             "write-twice determinism (C05) are evaluated on the real code for every generated history.")
 PART = {
